@@ -1,5 +1,5 @@
 import TinyVerif.Model.Dlmalloc
-import TinyVerif.Model.DlmallocWF
+import TinyVerif.Model.DlmallocWF2
 import TinyVerif.Model.DlPureEval
 import TinyVerif.Drv.Common
 /-! Line-protocol driver for C03 / C04: runs `Model/Dlmalloc.lean` on the op lines of harness/c03
@@ -124,7 +124,7 @@ def runOp (d : DState) (w : List String) : DState × String :=
     match d.hist.step op dirs with
     | .error e => ({ d with poisoned := true }, "model-error " ++ e)
     | .ok (hs, out) =>
-      match (if d.wf then wfFirstFailure hs else none) with
+      match (if d.wf then invFirstFailure hs else none) with
       | some part => ({ d with poisoned := true }, "model-error wf:" ++ part)
       | none =>
       let res := match op with
